@@ -4,3 +4,9 @@ import PycommProps.C16
 #print axioms Pycomm.C16.module_identity_decode_spec
 #print axioms Pycomm.C16.list_identity_decode_spec
 #print axioms Pycomm.C16.identity_encode_decode
+#print axioms Pycomm.C16.list_identity_e2e
+#print axioms Pycomm.C16.discover_reply_e2e
+#print axioms Pycomm.C16.get_module_info_e2e
+#print axioms Pycomm.C16.get_plc_info_e2e
+#print axioms Pycomm.C16.identify_then_info_e2e
+#print axioms Pycomm.C16.identity_changes_e2e
